@@ -25,8 +25,8 @@ ASSUMPTIONS = ['"normalising an already normalised URL" re-parses the normal for
                '(default_scheme http, encoding utf-8), as the crawler does with URLs from its table; the same-encoding '
                're-parse is checked too (known finding for user info)',
                'document encodings: utf-8, latin-1, ascii, cp1252, shift_jis, koi8-r, gbk, euc-kr, big5 (character-wise, '
-               'ASCII-transparent) and utf-16, utf-16-le, utf-16-be, utf-32 (encoded as UTF-8 by the repaired code); stateful '
-               '7-bit codecs (iso-2022-*, hz, utf-7) are not generated: outside the SegSafe hypothesis, not claimed']
+               'ASCII-transparent) and utf-16, utf-16-le, utf-16-be, utf-32, hz, utf-7 (encoded as UTF-8 by the repaired code), iso-2022-jp, iso-2022-kr (oracle only: '
+               'not character-wise, outside the SegSafe hypothesis of the theorems)']
 UNPROVED = ['norm_equiv as one composed theorem (equal normal form for all spellings of one URL): proved per component '
             '(ipv4_normal_form_fixed: all IPv4 spellings; flatten_clean: dot/empty segments; upperPct_*: escape case; '
             'scheme_lower/hostname_lower_ascii: case; default_port_elided/nondefault_port_kept: port), checked whole by the oracle',
